@@ -149,6 +149,12 @@ def run_ops(ctx: _Ctx, ops: list) -> list:
                 o["needs_hi"] = [bool(x) for x in r.needs_hi]
                 o["needs_pkt"] = [bool(x) for x in r.needs_pkt]
                 o["nparts_in"] = len(op["parts"])
+            elif kind == "compile_parsed":
+                r = c.compile_insn(op["name"])
+                o["insn_name"] = r.name
+                o["parts"] = [{"code": code, "meta": list(meta)} for code, meta in zip(r.rzil, r.meta)]
+                o["needs_hi"] = [bool(x) for x in r.needs_hi]
+                o["needs_pkt"] = [bool(x) for x in r.needs_pkt]
             elif kind == "load":
                 c.preprocessor.load_insn_behavior()
                 o["nbeh"] = len(c.preprocessor.behaviors)
@@ -238,6 +244,13 @@ def run_ops(ctx: _Ctx, ops: list) -> list:
             elif kind == "add_sub":
                 c.add_sub_routine(op["name"], op["ret"], list(op["params"]), op["body"])
                 o["def"] = c.sub_routines[op["name"]].il_init(SubRoutineInitType.DEF)
+            elif kind == "add_macro":
+                c.add_macro_to_transformer(op["name"], op["ret"], list(op["params"]), op["rzil"])
+            elif kind == "shortcode":
+                # the shipped batch route on a small behaviour table: preprocessor.behaviors -> parse_shortcode (real pool)
+                c.preprocessor.behaviors = {k: list(v) for k, v in op["behaviors"].items()}
+                c.parse_shortcode()
+                o["parsed"] = sorted(c.parsed_insns)
             elif kind == "dump_subs":
                 o["defs"] = {}
                 for name in op["names"]:
